@@ -816,6 +816,7 @@ func (st *Runtime) isSet(node Node) (ok bool) {
 			// something panicked while evaluating node; the panic may have unwound through
 			// constructs (range, yield, exec) that had not yet restored what they changed
 			st.scope, st.context, st.content, st.Writer = scope, context, content, writer
+			vt(st, "isset.recover")
 			ok = false
 		}
 	}()
